@@ -39,6 +39,14 @@ def getOptRat (j : Json) (k : String) : Except String (Option Rat) :=
   | .ok v => do pure (some (← asRat v))
   | _ => .error s!"!bad-arg:{k}"
 
+/-- optional list of names: absent or null = not given -/
+def getOptStrList (j : Json) (k : String) : Except String (Option (List String)) :=
+  match j.getObjVal? k with
+  | .ok .null => .ok none
+  | .ok (.arr a) => do pure (some (← a.toList.mapM asStr))
+  | .ok _ => .error s!"!bad-arg:{k}"
+  | .error _ => .ok none
+
 /-- parse + construct; the inner `Except` is the Python-level result of the constructor -/
 def asEquil (j : Json) : Except String (Except String (Equil Rat)) := do
   let r ← getPairs j "reac"
@@ -47,7 +55,9 @@ def asEquil (j : Json) : Except String (Except String (Equil Rat)) := do
   let ip ← getPairs j "iprod"
   let K ← getOptRat j "K"
   let d ← getBool j "dict"
-  pure (mkEq d r p ir ip K)
+  let checks ← getOptStrList j "checks"
+  let dont ← getOptStrList j "dont_check"
+  pure (mkEqChecks d r p ir ip K checks dont)
 
 def getEquil (j : Json) (k : String) : Except String (Except String (Equil Rat)) :=
   match j.getObjVal? k with
@@ -96,8 +106,17 @@ def h : Handler := fun op j =>
   match op with
   | "mk" => do pure (showRes (← getEquil j "eq"))
   | "rmul" => do
-      let e ← getEquil j "eq"; let n ← getInt j "n"
-      pure (showRes (do let e ← e; rmul n e))
+      let e ← getEquil j "eq"
+      -- "n": an integer, or null for a multiplier that is not integral
+      let n ← (match j.getObjVal? "n" with
+        | .ok .null => .ok none
+        | .ok v => do pure (some (← asInt v))
+        | _ => .error "!bad-arg:n")
+      pure (showRes (do let e ← e; rmulPy n e))
+  | "checks" => do
+      let r ← getPairs j "reac"; let p ← getPairs j "prod"
+      let ir ← getPairs j "ireac"; let ip ← getPairs j "iprod"
+      pure s!"any_effect={rawAnyEffect r p ir ip};all_positive={rawAllPositive r p ir ip}"
   | "neg" => do
       let e ← getEquil j "eq"
       pure (showRes (do let e ← e; neg e))
@@ -150,9 +169,10 @@ def h : Handler := fun op j =>
   | "as_reactions" => do
       let e ← getEquil j "eq"
       let kf ← getOptRat j "kf"; let kb ← getOptRat j "kb"; let c0 ← getRat j "c0"
+      let ug ← getBool j "units_given"; let ru ← getBool j "rate_has_units"
       let r : Except String (Rxn Rat × Rxn Rat) := do
         let e ← e
-        asReactions e kf kb c0
+        asReactionsPy e kf kb ug ru c0
       match r with
       | .ok (f, b) => pure s!"{showRxn f};{showRxn b}"
       | .error s => pure s
